@@ -2,6 +2,8 @@ package main
 
 import (
 	"go/token"
+	"go/types"
+	"sort"
 	"strings"
 
 	"golang.org/x/tools/go/ssa"
@@ -111,6 +113,95 @@ func runC12(c *Ctx) {
 	_, okRet := Match(Is(nonce), firstRet(c, enc, 0))
 	c.Check(okRet, "C12.D2-deterministic", enc.Name+" › returns the nonce used", enc.SSA.Pos(), "the nonce returned is the one given to Seal", "returned nonce differs from the one used")
 	c.Floor("C12.D2-deterministic", 3)
+	// salts are package-level slices that every call appends its input to (append(prefix, mh...)). That is only
+	// free of cross-talk between calls if the slice has no spare capacity: with room behind it, append writes the
+	// caller's bytes into the shared backing array (concurrent calls hash each other's input)
+	if sp := c.SSAPkgs[modPath+"/"+dhashPkg]; sp != nil {
+		var spare func(x *X, d int) string
+		spare = func(x *X, d int) string {
+			x = strip(x)
+			if x == nil || d > 3 {
+				return ""
+			}
+			if mk, ok := x.V.(*ssa.MakeSlice); ok {
+				l, k := c.E(mk.Len), c.E(mk.Cap)
+				if mk.Len != mk.Cap && !(l.Op == "const" && k.Op == "const" && l.Name == k.Name) {
+					return "make with capacity " + abbreviate(k.String()) + " beyond length " + abbreviate(l.String())
+				}
+				return ""
+			}
+			if sl, ok := x.V.(*ssa.Slice); ok && sl.Max == nil {
+				// make with constant sizes: a fresh array sliced below its length
+				if al, ok := sl.X.(*ssa.Alloc); ok {
+					if at, ok := deref(al.Type()).Underlying().(*types.Array); ok && sl.High != nil {
+						if h, ok := constInt(c.E(sl.High)); ok && h < at.Len() {
+							return "a slice of length " + itoa(int(h)) + " over a fresh array of " + itoa(int(at.Len()))
+						}
+					}
+				}
+			}
+			if x.Op == "phi" {
+				for _, a := range x.Args {
+					if w := spare(a, d+1); w != "" {
+						return w
+					}
+				}
+			}
+			if x.Op == "call" && x.Callee != nil && x.Callee.Pkg == sp && len(x.Callee.Blocks) > 0 {
+				for _, b := range x.Callee.Blocks {
+					if ret, ok := b.Instrs[len(b.Instrs)-1].(*ssa.Return); ok && len(ret.Results) > 0 {
+						if w := spare(c.RetX(ret, 0), d+1); w != "" {
+							return w + " (returned by " + c.short(x.Callee.String()) + ")"
+						}
+					}
+				}
+			}
+			return ""
+		}
+		appended := map[*ssa.Global]token.Pos{}
+		for _, f := range c.Funcs(dhashPkg) {
+			instrsDeep(f.SSA, func(_ *ssa.Function, in ssa.Instruction) {
+				ci, ok := in.(*ssa.Call)
+				if !ok {
+					return
+				}
+				if b, isB := ci.Call.Value.(*ssa.Builtin); !isB || b.Name() != "append" || len(ci.Call.Args) == 0 {
+					return
+				}
+				if u, ok := ci.Call.Args[0].(*ssa.UnOp); ok {
+					if g, ok := u.X.(*ssa.Global); ok && g.Pkg == sp {
+						if _, seen := appended[g]; !seen {
+							appended[g] = ci.Pos()
+						}
+					}
+				}
+			})
+		}
+		var gs []*ssa.Global
+		for g := range appended {
+			gs = append(gs, g)
+		}
+		sort.Slice(gs, func(i, j int) bool { return gs[i].Name() < gs[j].Name() })
+		for _, g := range gs {
+			why := ""
+			for _, m := range sp.Members {
+				fn, ok := m.(*ssa.Function)
+				if !ok {
+					continue
+				}
+				instrsDeep(fn, func(_ *ssa.Function, in ssa.Instruction) {
+					if st, ok := in.(*ssa.Store); ok && st.Addr == ssa.Value(g) {
+						if w := spare(c.E(st.Val), 0); w != "" {
+							why = w
+						}
+					}
+				})
+			}
+			c.Check(why == "", "C12.D2-shared-salt", c.short(g.String())+" › appended to without spare capacity", appended[g],
+				"the shared salt is never given room behind its contents", "the shared salt is built by "+why+": append(salt, input...) then writes every caller's input into the same backing array; concurrent (or interleaved) calls hash, derive keys from and encrypt with each other's input")
+		}
+	}
+	c.Floor("C12.D2-shared-salt", 2)
 
 	// ---- D3 errors ---------------------------------------------------------------------------------
 	for _, f := range []*Fn{enc, dec} {
